@@ -58,11 +58,10 @@ def normalise_doc(d):
 
 
 # ---- the rebuild (ModelLoad.load): the state Model._from_dict builds, observed like a history of API calls ----
-LOAD_IMPORTS = 'Prelude Codec ModelIO Model ModelOps ModelLoad'
-LOAD_TYPE = 'list (string * list (string * Z)) * content * bool * jv'
-LOAD_CHECK = 'Definition check (c : list (string * list (string * Z)) * content * bool * jv) : bool := load_check c.'
-LOAD_EXTRA = {'LOADABLE': 'count_true (fun c : list (string * list (string * Z)) * content * bool * jv => '
-                          "let '(t, k, _, _) := c in loadable (defaults_of t) k) cases"}
+LOAD_IMPORTS = 'Prelude Lang Codec ModelIO Model ModelOps ModelLoad Classes ModelSaveThm'
+LOAD_TYPE = 'lang * content * bool * jv'
+LOAD_CHECK = 'Definition check (c : lang * content * bool * jv) : bool := load_check_lang c.'
+LOAD_EXTRA = {'LOADABLE': 'count_true loadable_lang cases'}
 
 
 def defaults_table(lg, L):
@@ -130,7 +129,7 @@ def mutate_content(rng, cont):
     return kind, (name, assets, assocs, atts)
 
 
-def load_case(impl, cont, lg, lcf, tbl):
+def load_case(impl, cont, lg, lcf, L):
     """Run Model._from_dict on the document of the content; returns the Gallina case and whether it loaded."""
     from maltoolbox.model import Model
     doc = doc_of_content(cont)
@@ -141,7 +140,7 @@ def load_case(impl, cont, lg, lcf, tbl):
         raise
     except Exception:
         ok, obs = False, None
-    return f'({c_table(tbl)}, {c_content(cont)}, {C.cbool(ok)}, {C.cjv(obs)})', ok
+    return f'({LG.c_lang(L)}, {c_content(cont)}, {C.cbool(ok)}, {C.cjv(obs)})', ok
 
 def build_model(impl, rng, L, fixed):
     g = PM.Gen(impl, L, rng)
@@ -256,8 +255,7 @@ def check(pid: str, tier: str, seed: int):
                 metas.append({'content': cont, 'format': None, 'prop_viol': pv, 'kind': 'roundtrip'})
             # the rebuild: the state the loader builds from this content, and from damaged variants of it
             lg = lcf.lang_graph
-            tbl = defaults_table(lg, L)
-            lc, ok = load_case(impl, cont, lg, lcf, tbl)
+            lc, ok = load_case(impl, cont, lg, lcf, L)
             lcases.append(lc)
             lmetas.append({'content': cont, 'kind': 'saved', 'impl_loaded': ok})
             if not ok:
@@ -265,7 +263,7 @@ def check(pid: str, tier: str, seed: int):
             if rng.random() < 0.5:
                 kind, mc = mutate_content(rng, cont)
                 if mc is not None:
-                    lc, ok = load_case(impl, mc, lg, lcf, tbl)
+                    lc, ok = load_case(impl, mc, lg, lcf, L)
                     lcases.append(lc)
                     lmetas.append({'content': mc, 'kind': kind, 'impl_loaded': ok})
         # hand-written documents
